@@ -197,7 +197,7 @@ def expand(p, alphabet):
         q = new('stepenvline')
         q.files['d%d.in' % i] = 'data %d\n' % i
         q.lines.append("gl%d = build_step('gl%d.txt', cmd='true && gen gl%d.txt -- ' + source_file('d%d.in').path.string(env.base_dirs), "
-                       "environment={'VVSTEP': 'sv %d'})" % (i, i, i, i, i))
+                       "files=['d%d.in'], environment={'VVSTEP': 'sv %d'})" % (i, i, i, i, i, i))
         q.values.append(Value('gl%d' % i, FILE, 'gl%d.txt' % i, i))
         out.append(q)
     if 'exeopts' in alphabet:
